@@ -1,6 +1,6 @@
 (* C15 — data deletion. Property theorems only (quantification as in C16.v). *)
 From WF Require Import model.Base model.RunState model.Graph model.EngineBase model.Engine model.Monitors
-  model.Routing proofs.RunStateProofs proofs.EngineInv proofs.EngineTokens proofs.EngineProps proofs.Delivery proofs.DeliveryProps.
+  model.Routing proofs.RunStateProofs proofs.EngineInv proofs.EngineTokens proofs.EngineProps proofs.Delivery proofs.DeliveryProps proofs.RelayFacts proofs.FaultFree.
 
 (* DeleteData is accepted (a RequestedDataDeleted write happens) only for Completed, Cancelled or DataDeleted runs *)
 Theorem C15_request_eligible : forall c ops, hist_ok ops -> forall p r a, In (TStore (Some p) r a) (trace_of c ops) ->
@@ -32,3 +32,13 @@ Theorem C15_request_served : forall c ops, hist_ok ops ->
   (exists prev r', In (TStore prev r' ROk) (snd (run_ops c ops)) /\ r_run r' = r_run r /\ r_state r' = RSDataDeleted).
 Proof. exact delete_request_served. Qed.
 Print Assumptions C15_request_served.
+
+(* a request delivered to the delete consumer in a fault-free state is served WHATEVER state the run is in — in particular when
+   it is delivered again and the run is already DataDeleted (default deletion): the run is (re)written as DataDeleted with the
+   deletion marker and the handler returns nil, so the request is acknowledged and the consumer moves on to the next one *)
+Theorem C15_redelivered_request_served : forall c e r s,
+  ff s -> ec_del c = 0 -> lookup_run (o_w s) (e_run e) = Some r ->
+  exists s', delete_handler c e s = (Ok tt, s') /\ ff s' /\
+             o_w s' = do_store c (o_w s) (bump (set_state (set_obj r ODeleted) RSDataDeleted)).
+Proof. exact delete_handler_ff_default. Qed.
+Print Assumptions C15_redelivered_request_served.
